@@ -3770,9 +3770,7 @@ impl<Front: SocketHandler> ConnectionH2<Front> {
                     MuxResult::CloseSession
                 }
             }
-            (H2State::Error, _)
-            | (H2State::ClientSettings, Position::Server)
-            | (H2State::ServerSettings, Position::Client(..)) => {
+            (H2State::Error, _) | (H2State::ClientSettings, Position::Server) => {
                 error!(
                     "{} Unexpected combination: (Writable, {:?}, {:?})",
                     log_context!(self),
@@ -3780,6 +3778,17 @@ impl<Front: SocketHandler> ConnectionH2<Front> {
                     self.position
                 );
                 self.force_disconnect()
+            }
+            // Our preface is out and we wait for the server's SETTINGS: nothing
+            // can be written yet. A stream attached to this still-connecting
+            // backend (`Router::connect` reuses it) arms WRITABLE; tearing the
+            // healthy connection down here sent every attached stream back to
+            // `Link` and, after CONN_RETRIES such rounds, answered 503. Drop the
+            // interest again (as the ClientSettings arm did): the SETTINGS
+            // handler re-arms it and the attached streams go out then.
+            (H2State::ServerSettings, Position::Client(..)) => {
+                self.readiness.interest.remove(Ready::WRITABLE);
+                MuxResult::Continue
             }
             (H2State::ClientPreface, Position::Server) => MuxResult::Continue,
             // Discard state: pending data (e.g. RST_STREAM) was already
